@@ -76,6 +76,18 @@ pub fn coeffs(delta: i128, n_small: i128, level: Level) -> Vec<i128> {
         }
         k += if level == Level::Quick { 3 } else { 1 };
     }
+    // wrap thresholds: values whose up-scaling by 10^k lands next to 2^128, 2^129, 3*2^127
+    // (a lost carry or a truncating overflow check yields a small plausible value exactly there)
+    let mut k = 1;
+    while k <= 38 {
+        let p = pow10(k) as u128;
+        for w in [u128::MAX / p, (u128::MAX / p) * 2, (u128::MAX / p) / 2 * 3] {
+            if w <= M as u128 && w > 0 {
+                push_near(&mut s, w as i128, delta.min(1));
+            }
+        }
+        k += if level == Level::Quick { 3 } else { 1 };
+    }
     // pow5 / smooth
     let mut v: i128 = 1;
     let mut k = 0;
@@ -147,6 +159,13 @@ pub fn coeffs_small(level: Level) -> Vec<i128> {
     }
     for k in [31u32, 32, 63, 64, 65, 96, 126] {
         push_near(&mut s, 1i128 << k, 1);
+    }
+    for k in [1u32, 9, 13, 18, 19, 30, 38] {
+        let w = u128::MAX / pow10(k) as u128;
+        if w <= M as u128 {
+            push(&mut s, w as i128);
+            push(&mut s, w as i128 + 1);
+        }
     }
     push(&mut s, M);
     push(&mut s, M - 1);
